@@ -324,6 +324,12 @@ func (p *Proc) evalObject(ec *ectx, obj types.Object, n ast.Node) Val {
 		if o.IsField() {
 			p.failf(n, "field %s used as a variable", o.Name())
 		}
+		if p.lenient {
+			v := Val{T: p.freshConst("x_"+o.Name(), p.ctx.sortOf(o.Type())), Typ: o.Type()}
+			ec.st.vars[o] = v.T
+			p.wfAssume(ec.st, v)
+			return v
+		}
 		p.failf(n, "%s: variable %s has no value here", ec.where, o.Name())
 	case *types.Func:
 		// function value
@@ -621,6 +627,7 @@ func (p *Proc) evalCompositeLit(ec *ectx, x *ast.CompositeLit, addr bool) Val {
 					p.failf(kv, "unknown field %s", name)
 				}
 				vals[fi] = p.convert(ec, p.eval(ec, kv.Value), ut.Field(fi).Type())
+				p.pendingStore(ec, typ, ut.Field(fi), kv.Value)
 			} else {
 				vals[i] = p.convert(ec, p.eval(ec, el), ut.Field(i).Type())
 			}
@@ -1206,4 +1213,20 @@ var _ = constant.MakeInt64
 // hasBound reports whether a rendered term mentions a quantifier-bound variable.
 func hasBound(s string) bool {
 	return strings.Contains(s, "!q") || strings.Contains(s, "!l") || strings.Contains(s, "a!")
+}
+
+// pendingStore: a callback stored into a field declared `pending` counts as handed over: the
+// owner of the field invokes every stored callback exactly once later (assumption, see notes).
+func (p *Proc) pendingStore(ec *ectx, owner types.Type, f *types.Var, val ast.Expr) {
+	nt, ok := owner.(*types.Named)
+	if !ok || nt.Obj().Pkg() == nil {
+		return
+	}
+	if !p.ctx.dirs.Pending[nt.Obj().Pkg().Path()+"."+nt.Obj().Name()+"."+f.Name()] {
+		return
+	}
+	if v := p.cbVar(ec, val); v != nil {
+		ec.st.resolved[v] = Add(orZero(ec.st.resolved[v]), IntLit(1))
+		p.ctx.notes["callbacks stored in "+nt.Obj().Name()+"."+f.Name()+" are invoked exactly once later by the code that consumes that field (pending store)"] = true
+	}
 }
